@@ -1,5 +1,6 @@
 import PyxisVerif.Spec.C20
 import PyxisVerif.Lemmas.C20
+import PyxisVerif.Props.C20E2E
 /-!
 # C20 – equivalent descriptions produce identical bindings
 
